@@ -121,13 +121,60 @@ def note_others(ck, others):
                         % json.dumps(others, sort_keys=True))
 
 
+# ------------------------------------------------------------------ UCI sessions (SessionTrace monitor)
+def uci_sessions(ck, exe, n_scripts, cmds_per_script, perft_depth=2):
+    """real Uci::loop sessions (position / moves / printboard / perft / go / isready / unknown commands) validated by SessionTrace.tla"""
+    import random
+    rnd = random.Random(core.seed() + 77)
+    roots = write_roots_named(ck, ["roots_general.fen", "roots_special.fen", "roots_lowmat.fen", "roots_mate.fen"], "sessroots.fen")
+    poolf = os.path.join(ck.work, "sesspool.txt")
+    core.run_vh(exe, ["pool", "--roots", roots, "--games", 20, "--sparse", 60, "--out", poolf, "--seed", core.seed() + 5])
+    pool = [l.rstrip("\n").split("|") for l in open(poolf)]
+    gf = os.path.join(ck.work, "sessgame.txt")
+    core.run_vh(exe, ["long-game", "--plies", 120, "--out", gf, "--seed", core.seed() + 9])
+    game = open(gf).read().split()
+    traces = []
+    for i in range(n_scripts):
+        script = ["uci"] if i == 0 else []
+        for j in range(cmds_per_script):
+            p = rnd.choice(pool)
+            mv = p[1].split()
+            kind = rnd.randint(0, 5)
+            if kind == 0:
+                k = rnd.randint(0, len(game))
+                script += ["ucinewgame", "position startpos" + (" moves " + " ".join(game[:k]) if k else ""), "printboard", "perft 1"]
+            elif kind == 1:
+                script += ["position fen " + p[0] + " moves " + rnd.choice(mv), "printboard", "perft %d" % rnd.randint(1, perft_depth)]
+            elif kind == 2:
+                script += ["position fen " + p[0], "go depth %d" % rnd.randint(1, 2), "moves " + rnd.choice(mv), "printboard"]
+            elif kind == 3:
+                script += ["position fen " + p[0], "perft %d" % rnd.randint(1, perft_depth), "isready", "printboard"]
+            elif kind == 4:
+                script += ["position fen " + p[0], "go movetime %d" % rnd.choice([1, 5, 20]), "printboard", rnd.choice(["foo", "position", "hash", "setoption name Polyglot Sample value best"])]
+            else:
+                script += ["ucinewgame", "printboard", "perft %d" % rnd.randint(1, perft_depth), "position fen " + p[0], "printboard"]
+        sf = os.path.join(ck.work, "sess%d.uci" % i)
+        open(sf, "w").write("\n".join(script) + "\n")
+        tf = os.path.join(ck.work, "sess.%d.ndjson" % i)
+        core.run_vh(exe, ["uci-session", "--script", sf, "--trace", tf, "--wait-ms", 120000], timeout=1800)
+        traces.append(tf)
+    viols, cnt, st = core.validate_shards(traces, module="SessionTrace.tla", cfg="SessionTrace.cfg", timeout=1800)
+    ck.add_states(st["generated"], st["distinct"])
+    ck.cov["traces_validated_against_impl"] += len(traces)
+    for k in ("position", "printboard", "perft", "go"):
+        if cnt.get(k, 0) == 0:
+            raise InfraError("vacuous UCI session traces: %s" % cnt)
+    ck.cov["uci_session_counters"] = cnt
+    return viols, cnt
+
+
 # ------------------------------------------------------------------ C01
 def c01(tier):
     ck = Check("C01", tier, "model_checking")
     exe = build.build("plain")
     full = tier == "thorough"
     others = {}
-    fam = families(ck, exe, ["F1", "F3", "F4", "F6"], full, False)
+    fam = families(ck, exe, ["F1", "F3", "F4", "F5", "F6"], full, False)
     npos = 0
     nontriv = 0
     for f in fam:
@@ -142,6 +189,9 @@ def c01(tier):
     viols, cnt = validate(ck, shards)
     need(cnt, ["legal_cmp", "n_ep", "n_check", "n_castle"], "C01 traces")
     take(ck, "C01", viols, others)
+    # the `perft` command of the real front end against the number of behaviours of the rules (SessionTrace monitor)
+    sv, scnt = uci_sessions(ck, exe, 16 if full else 6, 30 if full else 10, perft_depth=3 if full else 2)
+    take(ck, "C01", sv, others)
     fens = core.distinct_fens(shards)
     ck.cov["evaluations"] = npos + cnt["legal_cmp"]
     ck.cov["distinct_nontrivial"] = nontriv + cnt["n_ep"] + cnt["n_check"] + cnt["n_castle"] + cnt["n_promo"]
@@ -149,7 +199,8 @@ def c01(tier):
                       "F3 (castling x attackers/blockers), F4 (promotions x pins/checks), F6 (pins on every ray), both colours, filtered by RetroLegal, "
                       "enumerated by TLC (all members are distinct positions); non-trivial = en-passant right, side in check or castling right present. "
                       "code->spec: engine game walks from %d roots validated by the RulesTrace monitor; non-trivial = positions with an en-passant right, "
-                      "in check, with a legal castling move or a legal promotion (counted by the monitor)." % sum(1 for _ in open(roots)))
+                      "in check, with a legal castling move or a legal promotion (counted by the monitor). Also: `perft d` through the real UCI front end, per-move "
+                      "counts and total compared with the number of length-d behaviours of the rules (SessionTrace monitor)." % sum(1 for _ in open(roots)))
     ck.cov["family_positions"] = {f["fam"]: f["positions"] for f in fam}
     ck.cov["trace_positions"] = cnt["legal_cmp"]
     ck.cov["trace_distinct_positions"] = len(fens)
@@ -172,7 +223,7 @@ def c02(tier):
     exe = build.build("plain")
     full = tier == "thorough"
     others = {}
-    fam = families(ck, exe, ["F1", "F3", "F4"] + (["F6"] if full else []), full, True)
+    fam = families(ck, exe, ["F1", "F3", "F4", "F5"] + (["F6"] if full else []), full, True)
     applied = 0
     for f in fam:
         take(ck, "C02", f["disc"], others)
@@ -185,6 +236,9 @@ def c02(tier):
     viols, cnt = validate(ck, shards)
     need(cnt, ["fen_cmp", "do"], "C02 traces")
     take(ck, "C02", viols, others)
+    # whole UCI sessions through the real command loop: position / moves / printboard (SessionTrace monitor)
+    sv, scnt = uci_sessions(ck, exe, 16 if full else 6, 30 if full else 10, perft_depth=1)
+    take(ck, "C02", sv, others)
     special = special_moves_played(shards)
     ck.cov["evaluations"] = applied + cnt["do"]
     ck.cov["distinct_nontrivial"] = len(special["distinct"])
@@ -261,7 +315,7 @@ def c03(tier):
     viols, cnt = validate(ck, shards)
     need(cnt, ["undo_cmp", "undo", "undonull"], "C03 traces")
     take(ck, "C03", viols, others)
-    fam = families(ck, exe, ["F1", "F3", "F4"], False, True)     # do/undo of every legal move of the family positions
+    fam = families(ck, exe, ["F1", "F3", "F4", "F5"], False, True)     # do/undo of every legal move of the family positions
     for f in fam:
         take(ck, "C03", f["disc"], others)
     ck.cov["evaluations"] = cnt["undo_cmp"] + sum(f["applied"] for f in fam)
@@ -330,6 +384,9 @@ def c07(tier):
                                             "mv-pct": 0, "keys": 0, "repr": 0, "policy": 2})
     shards += trace(ck, exe, "games", "q", {"roots": low, "games": 400 if full else 32, "maxply": 700 if full else 220, "shards": 16,
                                             "mv-pct": 0, "keys": 0, "repr": 0, "policy": 3})
+    clocks = write_roots_named(ck, ["roots_clock.fen"], "clock.fen")
+    shards += trace(ck, exe, "games", "c", {"roots": clocks, "games": 300 if full else 48, "maxply": 40, "shards": 16,
+                                            "mv-pct": 0, "keys": 0, "repr": 0, "policy": 6})
     mates = write_roots_named(ck, ["roots_mate.fen"], "mate.fen")
     shards += trace(ck, exe, "games", "m", {"roots": mates, "games": 400 if full else 64, "maxply": 40, "shards": 16,
                                             "mv-pct": 0, "keys": 0, "repr": 0, "policy": 5})
@@ -392,18 +449,18 @@ def per_move(pid, tier, level, cmpkey, fams, rule, extra_need=()):
 
 
 def c15(tier):
-    ck = per_move("C15", tier, "model_checking", "cls_cmp", ["F3", "F4", "F1"],
+    ck = per_move("C15", tier, "model_checking", "cls_cmp", ["F3", "F4", "F2", "F5"] + (["F1"] if tier == "thorough" else []),
                   "for every legal move of every visited position the engine's three answers (capture, quiet, gives check) are compared with IsCapture / "
                   "IsQuiet / GivesCheck = InCheck(Apply) of the specification. spec->code: all legal moves of families F3 (castling, incl. castling that "
                   "gives check along the f/d file), F4 (promotions with and without capture, checking via the new piece), F1 (en passant incl. discovered "
-                  "checks through the captured pawn); code->spec: every legal move along engine games. distinct_nontrivial = move observations in traces "
+                  "checks through the captured pawn), F2 (en passant that gives check: own slider and enemy king anywhere), F5 (home-rook captures); code->spec: every legal move along engine games. distinct_nontrivial = move observations in traces "
                   "that are castling, promotion, en passant or checking moves (monitor counters)")
     ck.assumptions += ["Chess.tla as the definition of what happens when the move is played"]
     return ck.finish()
 
 
 def c16(tier):
-    ck = per_move("C16", tier, "model_checking", "uci_cmp", ["F3"],
+    ck = per_move("C16", tier, "model_checking", "uci_cmp", ["F3", "F7", "F4"],
                   "per legal move: the engine's uci(m) is the move the specification denotes, parse_uci(uci(m)) is the same engine move, the packed word "
                   "decodes to the move's fields (castling code for castling); per position: Position(fen()) prints the identical FEN, has identical keys "
                   "and piece placement and compares equal; spec->code: family FENs printed by the specification are loaded and printed back by the engine; "
